@@ -185,6 +185,10 @@ def generate(task: Task):
             if cond is not None:
                 f = ip.spec_bool(cond, s.old)
                 ctx.oblige(s, f'{qn}#raises-only-if:{nm}@path{pid}', 'raises', 'clause', f, note=cond)
+            else:
+                # listed without a condition: permitted on any input (the obligation records that the path was seen)
+                ctx.oblige(s, f'{qn}#raises-permitted:{nm}@path{pid}', 'raises', 'route', z3.BoolVal(True),
+                           note=f'{nm} is listed by the contract without a condition')
             env = _post_env(s, None)
             env['exc'] = exc
             for cl in c.exc_ensures.get(nm, ()):
